@@ -70,6 +70,11 @@ def showObj (o : Obj) : String :=
   " ".intercalate ([showKind o.kind, o.cls, toString o.fields.length] ++
     o.fields.flatMap (fun f => [encodeStr (some f.1), showVal f.2]))
 
+def objEq : Option Obj → Option Obj → Bool
+  | some a, some b => a.kind == b.kind && a.cls == b.cls && a.fields == b.fields
+  | none, none => true
+  | _, _ => false
+
 def showErr : Err → String
   | .fuel => "err fuel" | .dangling => "err dangling" | .malformed => "err malformed"
 
@@ -89,7 +94,11 @@ def handle (ws : List String) : String :=
             | .error e => showErr e
             | .ok (s, v) =>
               let new := (s.h.toList.drop h.size)
-              " ".intercalate (["ok", showVal v, toString new.length] ++ new.map showObj)
+              -- old objects whose content differs after the copy (the subject of copy_no_write*), and the final memo (copy_fresh)
+              let changed := (List.range h.size).filter (fun x => !(objEq s.h[x]? h[x]?))
+              " ".intercalate (["ok", showVal v, toString new.length] ++ new.map showObj
+                ++ ["changed", toString changed.length] ++ changed.map toString
+                ++ ["memo", toString s.m.length] ++ s.m.flatMap (fun p => [toString p.1, toString p.2]))
           | _ => "bad-op"
         | none => "bad-op"
       | _ => "bad-op"
@@ -98,7 +107,7 @@ def handle (ws : List String) : String :=
     match parseTree rest with
     | some (tree, more) =>
       let n := tree.size
-      if more.length != 2 * n || (sup != "0" && sup != "1") then "bad-op" else
+      if more.length != 2 * n || (sup != "0" && sup != "1") || !(tree.nodes.all (fun x => x.id < n)) then "bad-op" else
       let el := (more.take n).toArray
       let tl := (more.drop n).toArray
       (extract (sup == "1") (fun i => tl[i]?.getD "?") (fun i => el[i]?.getD "?") tree).render
